@@ -88,6 +88,7 @@ type procSpec struct {
 	FinalMs  int    `json:"final_ms,omitempty"`
 	Fork     bool   `json:"fork,omitempty"`      // the shell forks a worker child (pipeline / compound command)
 	LingerMs int    `json:"linger_ms,omitempty"` // closes its output after the last chunk and stays alive
+	Bulk     int    `json:"bulk,omitempty"`      // bytes of further output after Text (more than a pipe holds, e.g. seq 100000)
 }
 
 type sysPlan struct {
@@ -341,6 +342,9 @@ func (r *sysRun) defaultBehave(p *simos.Proc) simos.Script {
 	}
 	if text != "" || d > 0 {
 		sc.Chunks = []simos.Chunk{{DelayMs: d, Data: text}}
+	}
+	if n := clampInt(ps.Bulk, 0, 1<<20); n > 0 {
+		sc.Chunks = append(sc.Chunks, simos.Chunk{Data: strings.Repeat("0123456\n", n/8+1)})
 	}
 	return sc
 }
@@ -602,7 +606,7 @@ func (r *sysRun) user() {
 				// SIGTERM / SIGHUP are for fzf itself whatever it is doing: also while a command it has
 				// started in the foreground is still running
 				for _, p := range r.os.Snapshot() {
-					if p.Alive && strings.HasPrefix(p.Command, "EX") && p.Parent == nil {
+					if p.Alive && (strings.HasPrefix(p.Command, "EX") || strings.HasPrefix(p.Command, "TQ") || strings.HasPrefix(p.Command, "TR")) && p.Parent == nil {
 						r.sigTermAt = r.sim.Now()
 						r.sigTermCmd = p.Command
 					}
@@ -653,6 +657,8 @@ func (r *sysRun) user() {
 	r.userDone = true
 }
 
+const grandchildMark = "[grandchild] "
+
 var sysEventHandlers = map[string]func(r *sysRun, ev *sysEvent){}
 
 // exitAudit is evaluated at the instant Run returns (a real process would
@@ -661,6 +667,11 @@ func (r *sysRun) exitAudit() []string {
 	var out []string
 	out = append(out, r.tty.Audit()...)
 	for _, p := range r.os.AliveUnkilled() {
+		if r.sigTermAt > 0 && p.Parent != nil && p.Parent.Killed && p.Parent.Command == r.sigTermCmd {
+			// its own class: fzf did stop the command it had started (the shell), what the shell had started lives on
+			out = append(out, fmt.Sprintf("%sSIGTERM/SIGHUP arrived while the command %q was running in the foreground; fzf killed the shell (pid %d), the shell's own child %d is still running and never killed", grandchildMark, r.sigTermCmd, p.Parent.Pid, p.Pid))
+			continue
+		}
 		out = append(out, fmt.Sprintf("child process %d (%q) still running and never killed", p.Pid, p.Command))
 	}
 	if ents, err := os.ReadDir(os.TempDir()); err == nil {
@@ -822,6 +833,9 @@ func (r *sysRun) drive() bool {
 // finish forces termination (if still running) and collects the outcome.
 func (r *sysRun) finish() {
 	c := r.c
+	if n := r.os.PipeFull; n > 0 {
+		c.count("probe.pipe_full_writer_blocked", n)
+	}
 	if r.sigQuiet {
 		// a command started right after the signal was sent (a key already on its way) may have begun before
 		// fzf got to look at the signal: then ignoring it is what fzf does during a command
